@@ -7,7 +7,7 @@
 (* name, call results, function names, method values, each of them also      *)
 (* through the binding of an enclosing match, and $ running over JSON values *)
 (* of every kind).  Number literals of the patterns include every index the  *)
-(* sources use (0..4, 7).                                                    *)
+(* sources use (0..4, 7), string literals the name of the missing member zz. *)
 (*   phase 1 (Init): the case list; static laws of Eval / EnvCmp             *)
 (*   phase 2 (Next): the body scheme; laws of the selection and of the body; *)
 (*                   one vector (per applicable source: admitted outcomes)   *)
@@ -45,7 +45,7 @@ NS == Len(Sources)
 Vals == [s \in 1..NS |-> Eval(Sources[s].e, Sources[s].dollar)]
 
 \* ---- case lists (sequences of alternative lists)
-LP == {Num(0), Num(1), Num(2), Num(3), Num(4), Num(7), Str("a"), Bool(TRUE), Bool(FALSE), Null}
+LP == {Num(0), Num(1), Num(2), Num(3), Num(4), Num(7), Str("a"), Str("zz"), Bool(TRUE), Bool(FALSE), Null}
 NN == LP \ {Null}
 X == PId("x")
 P0 == PArr(<<>>)
